@@ -188,26 +188,46 @@ impl<'l> CelCompiler<'l> {
             let true_clause_bytecode = true_clause_node.into_bytecode();
             let false_clause_bytecode = false_clause_node.into_bytecode();
 
-            let after_true_clause = self.new_label();
+            let not_true_label = self.new_label();
+            let false_clause_label = self.new_label();
             let end_label = self.new_label();
 
+            // The condition is reduced to its truthiness (or kept as the failure it is):
+            //   truthy  -> true clause
+            //   falsy   -> false clause
+            //   failure -> neither clause runs, the failure is the result
             CompiledProg {
                 inner: NodeValue::Bytecode(
                     expr_node
                         .into_bytecode()
                         .into_iter()
                         .chain(
-                            [PreResolvedCodePoint::JmpCond {
-                                when: JmpWhen::False,
-                                label: after_true_clause,
-                            }]
+                            [
+                                ByteCode::Test.into(),
+                                ByteCode::Dup.into(),
+                                PreResolvedCodePoint::JmpCond {
+                                    when: JmpWhen::False,
+                                    label: not_true_label,
+                                },
+                                ByteCode::Pop.into(),
+                            ]
                             .into_iter(),
                         )
                         .chain(true_clause_bytecode.into_iter())
                         .chain(
                             [
                                 PreResolvedCodePoint::Jmp { label: end_label },
-                                PreResolvedCodePoint::Label(after_true_clause),
+                                PreResolvedCodePoint::Label(not_true_label),
+                                // false or a failure is on the stack; negating keeps a failure
+                                ByteCode::Dup.into(),
+                                ByteCode::Not.into(),
+                                PreResolvedCodePoint::JmpCond {
+                                    when: JmpWhen::True,
+                                    label: false_clause_label,
+                                },
+                                PreResolvedCodePoint::Jmp { label: end_label },
+                                PreResolvedCodePoint::Label(false_clause_label),
+                                ByteCode::Pop.into(),
                             ]
                             .into_iter(),
                         )
